@@ -209,6 +209,13 @@ def r5(ctx, F, fn):
     ctx.check("C02.R5", "once-per-ply-effects", ok, fn=PUSH, file=fn["file"], line=fn["span"][0],
               what="every push must: copy the state, reset the en-passant file, apply the move, flip the side exactly once and "
                    "push exactly the modified copy", expected=["copy-state", "reset-ep", "match", "flip", "push-state"], found=seq)
+    to = F.fn("chess::Player::the_other")
+    nf = hir.summarize(to, F)
+    D = discr_map(F)
+    flips = {o: hir.fmt(hir.fold(nf, {("var", "self"): ("variant", PL + o)}, D), 40) for o in ("White", "Black")}
+    ctx.check("C02.R5", "the_other-swaps-the-sides", flips == {"White": "Player::Black", "Black": "Player::White"}, fn=to["path"], file=to["file"],
+              line=to["span"][0], what="Player::the_other must map White to Black and Black to White (it is the side flip of every ply)",
+              expected={"White": "Player::Black", "Black": "Player::White"}, found=flips)
     # no other write of current_player / state pushes hidden in arms
     inner = 0
     for n, anc in hir.walk(body):
